@@ -29,7 +29,15 @@ PiClauses(e) ==
     IF ~e.ok THEN {"raises"}
     ELSE IF IsNullBasis(e.vecs, e.m) THEN {} ELSE {"pi-basis"}
 
-Clauses(e) == IF e.ev = "op" THEN OpClauses(e) ELSE PiClauses(e)
+\* dimensionality is a homomorphism: dim(x op y) = dim(x) op dim(y), dim(x ** k) = dim(x) ** k
+\* (x, y containers over unit names and base / derived dimension names; all three observed)
+HomClauses(e) ==
+    IF ~e.ok THEN {"raises"}
+    ELSE IF ~(PairsCanonical(e.dx) /\ PairsCanonical(e.dy) /\ PairsCanonical(e.dres)) THEN {"canonical"}
+    ELSE LET dx == FromPairs(e.dx)  dy == FromPairs(e.dy)
+             want == CASE e.op = "mul" -> Mul(dx, dy) [] e.op = "div" -> Div(dx, dy) [] e.op = "pow" -> Pow(dx, e.k) [] e.op = "rdiv" -> Inv(dx)
+         IN IF FromPairs(e.dres) # want THEN {"dimensionality-homomorphism"} ELSE {}
+Clauses(e) == CASE e.ev = "op" -> OpClauses(e) [] e.ev = "hom" -> HomClauses(e) [] OTHER -> PiClauses(e)
 
 Init == l = 1 /\ bad = {}
 Next == /\ l <= Len(Trace)
